@@ -289,8 +289,7 @@ func (g *gen) sortOf(t types.Type) (string, bool) {
 		g.ensureSort(sFn)
 		return sFn, false
 	case *types.Map:
-		g.ensureSort("U_map")
-		return "U_map", false
+		return sPtr, false // a map value is a handle; its content lives in the HM/HMP heap components
 	case *types.Chan:
 		g.ensureSort("U_chan")
 		return "U_chan", false
@@ -930,4 +929,17 @@ func (g *gen) noteAddr(addr string, root *ssa.Alloc) {
 		g.addrRoot[addr] = root
 		g.addrList = append(g.addrList, addr)
 	}
+}
+
+// mapComps: heap components holding the content and the key set of every map with these sorts
+func (g *gen) mapComps(mt *types.Map) (val, has string, ks, vs string) {
+	ks, _ = g.sortOf(mt.Key())
+	vs, _ = g.sortOf(mt.Elem())
+	g.ensureSort(ks)
+	g.ensureSort(vs)
+	val = "HM." + sortID(ks) + "." + sortID(vs)
+	has = "HMP." + sortID(ks)
+	g.comp(val, fmt.Sprintf("(Array Int (Array %s %s))", ks, vs))
+	g.comp(has, fmt.Sprintf("(Array Int (Array %s Bool))", ks))
+	return
 }
